@@ -37,6 +37,7 @@ int clean_and_set_to_extern(struct alphabet* a);
 
 static int merge_multiple(struct alphabet*a,char* p,int n);
 static int merge_codes(struct alphabet*a,const int X, const int Y);
+static void map_unknown_letters(struct alphabet* a, const int to);
 
 #ifdef UTEST_ALPHABET
 int print_alphabet(struct alphabet* a);
@@ -195,6 +196,7 @@ int create_default_protein(struct alphabet* a)
 
 
         code++;
+        map_unknown_letters(a,'X');
         return OK;
 }
 
@@ -221,6 +223,7 @@ int create_protein_BZX(struct alphabet* a)
         */
         a->to_internal[(int) 'U'] = code-1;
         //code++;
+        map_unknown_letters(a,'X');
         return OK;
 }
 
@@ -263,6 +266,7 @@ int create_default_DNA(struct alphabet* a)
         merge_codes(a,'N','H');
         merge_codes(a,'N','V');
 
+        map_unknown_letters(a,'N');
         return OK;
 }
 
@@ -315,7 +319,7 @@ Martin Steinegger 1, 2, 3 and Johannes Söding 1 */
         merge_codes(a,'Z','E');
         merge_codes(a,'Z','Q');
 
-
+        map_unknown_letters(a,'X');
         return OK;
 
 }
@@ -370,10 +374,23 @@ Martin Steinegger 1, 2, 3 and Johannes Söding 1 */
 
         merge_multiple(a,"BZX",3);
 
+        map_unknown_letters(a,'X');
         return OK;
 
 }
 
+
+/* Letters that are not part of the alphabet (e.g. X in DNA, J or O in protein) are
+   treated like the ambiguity code; otherwise they would be left without an internal code. */
+static void map_unknown_letters(struct alphabet* a, const int to)
+{
+        int i;
+        for(i = 'A'; i <= 'Z';i++){
+                if(a->to_internal[i] == -1){
+                        a->to_internal[i] = a->to_internal[to];
+                }
+        }
+}
 
 int merge_multiple(struct alphabet*a,char* p,int n)
 {
